@@ -291,6 +291,24 @@ pub fn generate(prop: &str, thorough: bool, r: &mut Rng, em: &mut Emit) {
                 // a reference type whose signature mentions an uninhabited record cycle does not decode at its own type: known finding of C10
                 let rc = has_record_cycle(&env) && (ts.iter().any(|t| has_ref(&env, t, 4)) || env.iter().any(|d| has_ref(&env, &d.1, 4)));
                 let (sound, chain) = if oc { ("p.c04.sound.opt-cycle", "p.c04.chain.opt-cycle") } else if rc { ("p.c04.sound.ref-over-record-cycle", "p.c04.chain.ref-over-record-cycle") } else { ("p.c04.sound", "p.c04.chain") };
+                // the same pair of named types needed twice in one query: first where a failure is absorbed (under opt: the
+                // probe of the special opt rule), then where it is not (a required field, an element, a case) -- a checker that
+                // keeps what it assumed during the failed probe accepts the second occurrence
+                if names.len() >= 2 && !oc && !rc {
+                    for _ in 0..3 {
+                        let (x, y) = ({ let n: &String = r.pick(&names[..]); T::var(n) }, { let n: &String = r.pick(&names[..]); T::var(n) });
+                        let (t, t2) = match r.below(4) {
+                            0 => (T::rec(vec![(0, T::opt(x.clone())), (1, x.clone())]), T::rec(vec![(0, T::opt(y.clone())), (1, y.clone())])),
+                            1 => (T::rec(vec![(0, T::opt(x.clone())), (1, T::vec(x.clone()))]), T::rec(vec![(0, T::opt(y.clone())), (1, T::vec(y.clone()))])),
+                            2 => (T::rec(vec![(0, T::opt(T::vec(x.clone()))), (7, T::Variant(vec![(3, x.clone())]))]), T::rec(vec![(0, T::opt(T::vec(y.clone()))), (7, T::Variant(vec![(3, y.clone())]))])),
+                            _ => (T::rec(vec![(0, T::opt(T::rec(vec![(5, x.clone())]))), (1, T::opt(x.clone())), (2, x.clone())]), T::rec(vec![(0, T::opt(T::rec(vec![(5, y.clone())]))), (1, T::opt(y.clone())), (2, y.clone())])),
+                        };
+                        if let Some(v) = gen_val(r, &env, &t, 4) {
+                            em.stat("probe-then-required");
+                            em.case_nt("p.c04.sound", &[es.clone(), t.sx(), t2.sx(), v.sx()], true);
+                        }
+                    }
+                }
                 for (t, v) in ts.iter().zip(&vs) {
                     let t1 = mutate_type(r, t, &names, &cfg);
                     let t2 = mutate_type(r, &t1, &names, &cfg);
